@@ -137,7 +137,7 @@ def flatten(ctx):
     body_t = show(N.term(entry[0][1][2], syms), 10 ** 5)
     E = "elem(%s)" % REG
     REC = ANY
-    RD = "HashMap::get(P0@derives::DerivesRegistry.recursive_type_derives,HashMap::get(PATHS,%s.id)@v1::Some.0)" % E
+    RD = "HashMap::get(P0.recursive_type_derives,HashMap::get(PATHS,%s.id)@v1::Some.0)" % E
     exp = ("if(let v1::Some($)=HashMap::get(PATHS,%s.id)){if(let v1::Some($)=%s){"
            "{derives::collect_type_ids(%s.id,P%d,IDS);for(IDS){Derives::extend_from(Entry::or_default(HashMap::entry(ADD,elem(IDS))),%s@v1::Some.0)}}}else{'()'}}else{'()'}") % (E, RD, E, i_reg, RD)
     for lid, sym in syms.items():
